@@ -516,12 +516,18 @@ impl<R: Round> Context<R> {
     // Convert the [Repr] from base B to base NewB, with the precision under the target base from this context.
     #[allow(non_upper_case_globals)]
     fn convert_base<const B: Word, const NewB: Word>(&self, repr: Repr<B>) -> Rounded<Repr<NewB>> {
-        // shortcut if NewB is the same as B
+        // shortcut if NewB is the same as B: nothing to convert, but the result is still rounded to the
+        // precision of this context, like on every other path
         if NewB == B {
-            return Exact(Repr {
+            let repr = Repr {
                 significand: repr.significand,
                 exponent: repr.exponent,
-            });
+            };
+            return if repr.is_infinite() {
+                Exact(repr)
+            } else {
+                self.repr_round(repr)
+            };
         }
 
         // shortcut for infinities, no rounding happens but the result is inexact
